@@ -5,6 +5,7 @@
 import DtnVerif.Lemmas.TcpclSys
 import DtnVerif.Lemmas.TcpclAck
 import DtnVerif.Lemmas.TcpclSuccInv
+import DtnVerif.Lemmas.TcpclWake
 namespace DtnVerif
 namespace Tcpcl
 
@@ -32,6 +33,50 @@ theorem sys_lift_init (I : Ep → Prop) (hstep : ∀ e ev, I e → I (step e ev)
     (cfgA cfgB : Cfg) (sch : List SysEv) :
     I (runSys (initSys cfgA cfgB) sch).a ∧ I (runSys (initSys cfgA cfgB) sch).b :=
   sys_lift_run I hstep sch _ ⟨hstep _ _ (hinit cfgA), hstep _ _ (hinit cfgB)⟩
+
+/-- the same with a side condition `H` on the endpoint that moves -/
+theorem sys_lift_step' (H I : Ep → Prop) (hstep : ∀ e ev, H e → I e → I (step e ev).1) (s : Sys) (ev : SysEv)
+    (Ha : H s.a) (Hb : H s.b) (h : I s.a ∧ I s.b) : I (sysStep s ev).a ∧ I (sysStep s ev).b := by
+  obtain ⟨ha, hb⟩ := h
+  cases ev with
+  | atA ev => simp only [sysStep]; split <;> first | exact ⟨ha, hb⟩ | exact ⟨hstep _ _ Ha ha, hb⟩
+  | atB ev => simp only [sysStep]; split <;> first | exact ⟨ha, hb⟩ | exact ⟨ha, hstep _ _ Hb hb⟩
+  | deliverB k => simp only [sysStep]; split <;> first | exact ⟨ha, hb⟩ | exact ⟨ha, hstep _ _ Hb hb⟩
+  | deliverA k => simp only [sysStep]; split <;> first | exact ⟨ha, hb⟩ | exact ⟨hstep _ _ Ha ha, hb⟩
+  | eofB => simp only [sysStep]; split <;> first | exact ⟨ha, hb⟩ | exact ⟨ha, hstep _ _ Hb hb⟩
+  | eofA => simp only [sysStep]; split <;> first | exact ⟨ha, hb⟩ | exact ⟨hstep _ _ Ha ha, hb⟩
+
+/-- the side conditions of `wake_step` follow from the endpoint invariant -/
+theorem wakeHyp_of_epInv {e : Ep} (hi : EpInv e) :
+    e.cfg.privExt = false ∧ (e.txTmp.isSome = true → 0 < e.sendSegSize) := by
+  obtain ⟨P, hP⟩ := hi.tx
+  refine ⟨hP.noPriv, ?_⟩
+  intro ht
+  cases h : e.txTmp with
+  | none => rw [h] at ht; simp at ht
+  | some p =>
+    obtain ⟨it, sent⟩ := p
+    have := hP.tmp it sent h
+    exact hP.seg this.2.2.2.2
+
+/-- **No lost wake-up**, in every reachable state of the two-endpoint system. -/
+theorem wake_sys_run (sch : List SysEv) : ∀ (s : Sys), SysInv s → WakeInv s.a ∧ WakeInv s.b →
+    (∀ pre, pre <+: sch → SysWF (runSys s pre)) → (∀ ev ∈ sch, ev.sendOK) →
+    WakeInv (runSys s sch).a ∧ WakeInv (runSys s sch).b := by
+  induction sch with
+  | nil => intro s _ h _ _; exact h
+  | cons ev sch ih =>
+    intro s hi hw hwf hs
+    rw [runSys_cons]
+    have hwf0 : SysWF s := hwf [] (List.nil_prefix)
+    have hi' : SysInv (sysStep s ev) := sysInv_step s ev hi hwf0 (hs ev (List.mem_cons_self))
+    refine ih _ hi' ?_ ?_ ?_
+    · exact sys_lift_step' (fun e => e.cfg.privExt = false ∧ (e.txTmp.isSome = true → 0 < e.sendSegSize)) WakeInv
+        (fun e ev' H I => wake_step e ev' H.1 H.2 I) s ev (wakeHyp_of_epInv hi.ia) (wakeHyp_of_epInv hi.ib) hw
+    · intro pre hpre
+      have := hwf (ev :: pre) (List.cons_prefix_cons.mpr ⟨rfl, hpre⟩)
+      rwa [runSys_cons] at this
+    · intro ev' hev'; exact hs ev' (List.mem_cons_of_mem _ hev')
 
 end Tcpcl
 end DtnVerif
